@@ -114,3 +114,10 @@ Proof. exact atr_exact. Qed.
 Theorem C14_kc_real : forall p m s xs, kc_new XROps p (Fin m) = Ok s ->
   kc_outs XROps s (map Fin xs) = map (map Fin) (kc_real (kreal p) m xs).
 Proof. exact kc_exact. Qed.
+Theorem C14_slow_affine : forall p q s c d xs, slow_new XROps p q = Ok s -> 0 < c ->
+  slow_outs XROps s (map Fin (map (fun y => c * y + d) xs)) = slow_outs XROps s (map Fin xs).
+Proof. exact slow_affine. Qed.
+Theorem C14_obv_scale : forall c (bars : list (R * R)), 0 < c ->
+  Osc.obv_outs XROps (obv_new XROps) (map (fun b : R * R => mkBar (Fin 0) (Fin 0) (Fin 0) (Fin (c * fst b)) (Fin (snd b))) bars) =
+  Osc.obv_outs XROps (obv_new XROps) (map (fun b : R * R => mkBar (Fin 0) (Fin 0) (Fin 0) (Fin (fst b)) (Fin (snd b))) bars).
+Proof. exact obv_scale_new. Qed.
